@@ -197,6 +197,28 @@ func TestC17Identifiers(t *testing.T) {
 				h.Act("appStep")
 				h.appStep("appStep")
 			},
+			// the reconnect gets its CONNACK, then dies while the pending
+			// transfers are retransmitted; the one after is healthy
+			"resendFails": func(rt *rapid.T) {
+				c := h.Current()
+				if c == nil || h.inFlight(1)+h.inFlight(2) == 0 {
+					rt.Skip("no connection or nothing to resend")
+				}
+				d := rapid.IntRange(0, 80).Draw(rt, "off")
+				h.Act("break conn=%d; the next connection resets at connect+%d", c.N, d)
+				h.WithLock(func() {
+					h.NextConnOpts = func(c *sim.Conn) {
+						c.ArmWriteLocked(sim.WFault{Off: connectLen + d, Kind: sim.WReset})
+						h.NextConnOpts = nil
+					}
+				})
+				c.Break(false)
+				h.settleInbound()
+				h.appStep("reconnect whose resend fails")
+				h.WithLock(func() { h.NextConnOpts = nil })
+				h.appStep("next reconnect")
+				h.label("resend-failed-midway")
+			},
 			"restart": func(rt *rapid.T) {
 				if h.gen >= 2 {
 					rt.Skip("enough generations")
